@@ -3047,6 +3047,13 @@ pub(crate) const PLT_ENTRY_SIZE: u64 = 0x10;
 pub(crate) const RELA_ENTRY_SIZE: u64 = size_of::<Rela>() as u64;
 pub(crate) const RELR_ENTRY_SIZE: u64 = size_of::<Relr>() as u64;
 
+/// Returns whether a relative relocation at `offset_in_section` can go in .relr.dyn. RELR can only
+/// encode even addresses and we need to know the parity of the address before layout, so the
+/// section containing the relocation must be at least 2-byte aligned.
+pub(crate) fn relr_eligible(offset_in_section: u64, section_alignment: u64) -> bool {
+    offset_in_section.is_multiple_of(2) && section_alignment >= 2
+}
+
 pub(crate) const SYMTAB_ENTRY_SIZE: u64 = size_of::<SymtabEntry>() as u64;
 pub(crate) const SYMTAB_SHNDX_ENTRY_SIZE: u64 = size_of::<SymtabShndxEntry>() as u64;
 pub(crate) const GNU_VERSION_ENTRY_SIZE: u64 = size_of::<Versym>() as u64;
@@ -4863,7 +4870,9 @@ fn process_relocation<'data, 'scope, A: Arch<Platform = Elf>, R: Relocation>(
         {
             if section_is_writable {
                 // Odd offsets mean bitmaps in RELR, so we need to fall back to RELA for them.
-                if resources.symbol_db.args.is_relr_enabled() && rel.offset().is_multiple_of(2) {
+                if resources.symbol_db.args.is_relr_enabled()
+                    && relr_eligible(rel.offset(), section.sh_addralign(LittleEndian))
+                {
                     common.allocate(part_id::RELR_DYN, elf::RELR_ENTRY_SIZE);
                 } else {
                     common.allocate(part_id::RELA_DYN_RELATIVE, elf::RELA_ENTRY_SIZE);
